@@ -226,3 +226,208 @@ theorem genIndexF_spec {shape : List Nat} {items : List GItem} {out idx : List N
   rfl
 
 end Np.GenIndexFns
+
+/-! ### a boolean mask of the operand's own shape selects the `True` positions in C order -/
+namespace Np.GenIndexFns
+open Np.Shape Np.ShapeFns Np.SelectFns Np.IndexFns Np.AdvIndexFns
+
+theorem inIndex_full : ∀ (shape j : List Nat), j.length = shape.length →
+    inIndex (shape.map fun n => AxOp.sl 0 1 n) j = j
+  | [], j, h => by
+    have : j = [] := List.length_eq_zero_iff.1 (by simpa using h)
+    subst this; rfl
+  | n :: shape, [], h => by simp at h
+  | n :: shape, x :: xs, h => by
+    simp only [List.map_cons, inIndex, List.headD_cons, List.tail_cons]
+    rw [inIndex_full shape xs (by simpa using h)]
+    congr 1
+    omega
+
+theorem resolve_fulls : ∀ shape : List Nat,
+    resolve shape (List.replicate shape.length Item.full) = some (shape.map fun n => AxOp.sl 0 1 n)
+  | [] => rfl
+  | n :: shape => by
+    rw [List.length_cons, List.replicate_succ]
+    show resolve (n :: shape) (Item.slice none none 1 :: List.replicate shape.length Item.full) = _
+    rw [resolve, sliceIndices_full]
+    simp only [resolve_fulls shape, Option.map_some, sliceLen_full, List.map_cons]
+
+/-- the view `a[:, :, ..., :]` is the operand itself -/
+theorem basicIndexF_fulls (shape : List Nat) :
+    basicIndexF shape (List.replicate shape.length Item.full) = some (shape, List.range (size shape)) := by
+  have hne : ∀ it ∈ List.replicate shape.length Item.full, it.isEllipsis = false := by
+    intro it hit
+    rw [List.eq_of_mem_replicate hit]; rfl
+  unfold basicIndexF
+  rw [expand_of_no_ellipsis _ hne]
+  simp only [resolve_fulls, outShape_full, Option.some.injEq, Prod.mk.injEq, true_and]
+  unfold gatherBy
+  conv => rhs; rw [← List.map_id (List.range (size shape))]
+  refine List.map_congr_left fun i hi => ?_
+  have hi' : i < size shape := List.mem_range.1 hi
+  have hpos := pos_of_size_pos (s := shape) (by omega)
+  rw [inIndex_full shape _ (unravel_length shape i), ravel_unravel hpos hi']
+  rfl
+
+theorem truePos_lt {bits : List Bool} {p : Nat} (h : p ∈ truePos bits) : p < bits.length := by
+  unfold truePos at h
+  exact List.mem_range.1 (List.mem_filter.1 h).1
+
+theorem maskCols_length (ms : List Nat) (bits : List Bool) : (maskCols ms bits).length = ms.length := by
+  simp [maskCols]
+
+theorem maskCols_shapes (ms : List Nat) (bits : List Bool) :
+    (maskCols ms bits).map (·.1) = List.replicate ms.length [(truePos bits).length] := by
+  unfold maskCols
+  rw [List.map_map]
+  exact List.ext_getElem (by simp) fun d h1 h2 => by simp
+
+theorem bshape_one_self (c : Nat) : bshape [c] [c] = some [c] := by
+  simp [bshape, bshapeRev]
+
+theorem bshapeAll_replicate (c : Nat) : ∀ k : Nat, 0 < k → bshapeAll (List.replicate k [c]) = some [c]
+  | 1, _ => bshapeAll_single [c]
+  | k + 2, _ => by
+    rw [List.replicate_succ, bshapeAll, bshapeAll_replicate c (k + 1) (by omega)]
+    exact bshape_one_self c
+
+theorem ixOK_of_all {chk : Bool} {n c : Nat} {data : List Int} (hl : data.length = c)
+    (h : ∀ x ∈ data, inRange n x = true) : ixOK chk n (([c], data) : Ix) = true := by
+  unfold ixOK
+  have : data.all (inRange n) = true := List.all_eq_true.2 h
+  simp [size, hl, this]
+
+/-- the coordinate arrays of a mask are acceptable index arrays for the axes they stand for -/
+theorem advOK_maskCols {bits : List Bool} (chk : Bool) : ∀ (pre ms : List Nat),
+    (∀ d ∈ pre ++ ms, 0 < d) →
+    advOK chk ms ((List.range ms.length).map fun d =>
+      (([(truePos bits).length], (truePos bits).map fun p =>
+        (((unravel (pre ++ ms) p).getD (pre.length + d) 0 : Nat) : Int)) : Ix)) = true
+  | _, [], _ => rfl
+  | pre, n :: ms, hpos => by
+    rw [List.length_cons, List.range_succ_eq_map, List.map_cons, advOK, Bool.and_eq_true]
+    constructor
+    · refine ixOK_of_all (by simp) fun x hx => ?_
+      obtain ⟨p, -, rfl⟩ := List.mem_map.1 hx
+      have hv := unravel_valid hpos p
+      have := hv.2 (pre.length + 0) (by simp)
+      have e : (pre ++ n :: ms).getD (pre.length + 0) 0 = n := by simp
+      rw [e] at this
+      unfold inRange
+      simp only [Bool.and_eq_true, decide_eq_true_eq]
+      omega
+    · have ih := advOK_maskCols (bits := bits) chk (pre ++ [n]) ms (by simpa using hpos)
+      rw [List.map_map]
+      have e : ∀ d p, (unravel (pre ++ [n] ++ ms) p).getD ((pre ++ [n]).length + d) 0 =
+          (unravel (pre ++ n :: ms) p).getD (pre.length + (d + 1)) 0 := by
+        intro d p
+        rw [List.append_assoc, List.singleton_append, List.length_append, List.length_singleton, Nat.add_assoc,
+          Nat.add_comm 1 d]
+      simp only [e] at ih
+      exact ih
+
+theorem normAt_natCast (n x : Nat) : normAt n (x : Int) = x := by
+  unfold normAt
+  rw [if_neg (by omega)]
+  simp
+
+theorem ixAt_maskCol {ms : List Nat} {bits : List Bool} {t d n : Nat} (ht : t < (truePos bits).length) :
+    ixAt n (([(truePos bits).length], (truePos bits).map fun p => (((unravel ms p).getD d 0 : Nat) : Int)) : Ix) [t] =
+      (unravel ms ((truePos bits).getD t 0)).getD d 0 := by
+  have hv : Valid [(truePos bits).length] [t] := valid_cons.2 ⟨ht, valid_nil.2 rfl⟩
+  unfold ixAt
+  simp only [bmulti_self hv]
+  have hr : ravel [(truePos bits).length] [t] = t := by
+    simp [ravel, size, Nat.mod_eq_of_lt ht]
+  have e1 : (truePos bits).getD t 0 = (truePos bits)[t] := by
+    rw [List.getD_eq_getElem?_getD, List.getElem?_eq_getElem ht, Option.getD_some]
+  rw [hr, List.getD_eq_getElem?_getD, List.getElem?_map, List.getElem?_eq_getElem ht, Option.map_some,
+    Option.getD_some, e1]
+  exact normAt_natCast _ _
+
+theorem zipWith_maskCols {shape : List Nat} {bits : List Bool} {t : Nat} (ht : t < (truePos bits).length) :
+    List.zipWith (fun n ix => ixAt n ix [t]) shape (maskCols shape bits) =
+      unravel shape ((truePos bits).getD t 0) := by
+  refine List.ext_getElem (by simp [maskCols, unravel_length]) fun d h1 h2 => ?_
+  have hd : d < shape.length := by simpa [maskCols] using h1
+  rw [List.getElem_zipWith]
+  have : (maskCols shape bits)[d]'(by simp [maskCols, hd]) =
+      (([(truePos bits).length], (truePos bits).map fun p => (((unravel shape p).getD d 0 : Nat) : Int)) : Ix) := by
+    simp [maskCols]
+  rw [this, ixAt_maskCol ht, List.getD_eq_getElem?_getD, List.getElem?_eq_getElem h2]
+  rfl
+
+/-- **a boolean mask of the operand's own shape**: `a[mask]` is 1-d, has one entry per `True`, and lists the flat
+positions of the `True`s in ascending (C) order - for every shape of at least one dimension without a zero-length axis
+and every mask -/
+theorem mask_selects_true_positions (shape : List Nat) (bits : List Bool) (hnd : shape.length ≠ 0)
+    (hpos : ∀ d ∈ shape, 0 < d) (hb : bits.length = size shape) :
+    genIndexF shape [.mask shape bits] = some ([(truePos bits).length], truePos bits) := by
+  have hlt : ∀ p ∈ truePos bits, p < size shape := fun p hp => hb ▸ truePos_lt hp
+  unfold genIndexF
+  have ha : ([GItem.mask shape bits].any GItem.isAdvanced) = true := rfl
+  rw [if_pos ha]
+  have he : expandG shape.length [GItem.mask shape bits] = some [GItem.mask shape bits] := rfl
+  rw [he]
+  have ht : translate shape [GItem.mask shape bits] =
+      some (List.replicate shape.length Item.full ++ [], (maskCols shape bits).map some ++ []) := by
+    rw [translate, if_pos ⟨hnd, by simp, hb⟩]
+    simp [translate]
+  simp only [ht, List.append_nil, basicIndexF_fulls]
+  have hp : bposG [GItem.mask shape bits] ((maskCols shape bits).map some) = 0 := by
+    unfold bposG
+    cases h : maskCols shape bits with
+    | nil => simp [lead]
+    | cons c cs => simp [lead]
+  rw [hp, show mixedAtF shape ((maskCols shape bits).map some) 0 =
+      mixedIndexF shape ((maskCols shape bits).map some) by
+    rw [mixedIndexF_eq_at, bpos_map_some], ← advIndexF_eq_mixed]
+  -- the advanced stage
+  have hB : bshapeAll ((maskCols shape bits).map (·.1)) = some [(truePos bits).length] := by
+    rw [maskCols_shapes]
+    exact bshapeAll_replicate _ shape.length (Nat.pos_of_ne_zero hnd)
+  have hok : ∀ chk, advOK chk shape (maskCols shape bits) = true := fun chk => by
+    have := advOK_maskCols (bits := bits) chk [] shape (by simpa using hpos)
+    simpa [maskCols] using this
+  obtain ⟨⟨out, idx2⟩, hr⟩ := Option.isSome_iff_exists.1
+    ((advIndexF_isSome shape (maskCols shape bits)).2 ⟨_, hB, hok _⟩)
+  rw [hr]
+  obtain ⟨B, hB', -, -, hout, hrd⟩ := advIndexF_spec hr
+  rw [hB] at hB'
+  obtain rfl : [(truePos bits).length] = B := Option.some.inj hB'
+  have hdrop : shape.drop (maskCols shape bits).length = [] := by
+    rw [maskCols_length, List.drop_length]
+  rw [hdrop] at hout hrd
+  rw [List.append_nil] at hout
+  subst hout
+  have hlen : idx2.length = (truePos bits).length := by
+    rw [advIndexF_length hr]; simp [size]
+  simp only [Option.some.injEq, Prod.mk.injEq, true_and]
+  refine List.ext_getElem (by rw [List.length_map, hlen]) fun t h1 h2 => ?_
+  have ht' : t < (truePos bits).length := h2
+  have hv : Valid [(truePos bits).length] [t] := valid_cons.2 ⟨ht', valid_nil.2 rfl⟩
+  obtain ⟨e, -, -⟩ := hrd [t] [] hv (valid_nil.2 rfl)
+  have hr' : ravel [(truePos bits).length] ([t] ++ []) = t := by
+    simp [ravel, size, Nat.mod_eq_of_lt ht']
+  rw [hr', List.append_nil, zipWith_maskCols ht'] at e
+  have hpt : (truePos bits).getD t 0 < size shape := by
+    rw [List.getD_eq_getElem?_getD, List.getElem?_eq_getElem ht']
+    exact hlt _ (List.getElem_mem _)
+  rw [ravel_unravel hpos hpt] at e
+  rw [List.getElem_map]
+  have e2 : idx2[t] = (truePos bits).getD t 0 := by
+    have := List.getElem?_eq_getElem (l := idx2) (by rw [hlen]; exact ht')
+    rw [this] at e
+    exact Option.some.inj e
+  have e1 : (truePos bits).getD t 0 = (truePos bits)[t] := by
+    rw [List.getD_eq_getElem?_getD, List.getElem?_eq_getElem ht', Option.getD_some]
+  rw [e2, e1]
+  rw [e1] at hpt
+  rw [List.getD_eq_getElem?_getD, List.getElem?_eq_getElem (by simpa using hpt), Option.getD_some,
+    List.getElem_range]
+
+/-- the 1-d case: `a[mask]` on a vector lists the positions where the mask is `True` -/
+theorem mask_index_1d (n : Nat) (bits : List Bool) (hn : 0 < n) (hb : bits.length = n) :
+    genIndexF [n] [.mask [n] bits] = some ([(truePos bits).length], truePos bits) :=
+  mask_selects_true_positions [n] bits (by simp) (by simpa using hn) (by simpa [size] using hb)
+end Np.GenIndexFns
